@@ -1,6 +1,5 @@
 // Specs and contract harnesses for src/utils.rs: cc_alloc / cc_dealloc (byte accounting: C11,
 // free with the given layout: C03), alloc_other / dealloc_other, ResetMarkDropGuard.
-#![allow(dead_code, unused_imports)]
 use super::*;
 use crate::cc::verif_proofs as ccp;
 use crate::state::verif_proofs as sp;
